@@ -475,6 +475,16 @@ def cancel_run_then_resize(ncancel=8, old=1, new=2, cpu=1):
     return P(f"cancel-run{ncancel}-resize-{old}to{new}", pool("reusable", old, None, cpu_count=cpu), ops)
 
 
+def busy_manager_idle_worker(mw=2, timeout=0.05, cb_sleep=0.3):
+    """One worker holds a long task, the other idles out while the manager thread is busy in a
+    slow done-callback (a worker death in that window is seen only when the manager goes back
+    to waiting)."""
+    return P(f"busy-manager-idle-worker-w{mw}", pool(max_workers=mw, timeout=timeout),
+             [NEW, sub("g", "gate"), sub("a", "ok", 1), ["callback", "a", "slow", cb_sleep],
+              ["result", "a"], ["sleep", 0.5], ["release", "g"], WAIT, ["submit_expect", "z"],
+              shutdown(True)])
+
+
 def idle_then_die(mw=1, timeout=0.05):
     """All workers idle out; the next task is re-spawned for and takes its worker down."""
     return P(f"idle-then-die-w{mw}", pool(max_workers=mw, timeout=timeout),
